@@ -486,6 +486,12 @@ func runC12(c *ev.Ctx) {
 	for _, f := range floatsF() {
 		addv(f, spec.F(f), "float64")
 	}
+	// the far end of the float range: non-finite values are floats like any other
+	for _, f := range []float64{math.NaN(), math.Inf(1), math.Inf(-1)} {
+		addv(f, spec.F(f), "float64-nonfinite")
+		f32 := float32(f)
+		addv(f32, spec.F(float64(f32)), "float32-nonfinite")
+	}
 	stringsUpTo(2, func(s string) bool { addv(s, spec.S(s), "string"); return true })
 	addv(true, spec.B(true), "bool")
 	addv(false, spec.B(false), "bool")
